@@ -19,7 +19,7 @@ from refsftp import FXP
 from vloop import Livelock
 
 BASE = '/dev/shm/asyncssh-verif-c13-%d' % os.getpid()       # unique per check run (workers are forked later)
-NAMES = [b'a', b'..', b'.', b'../x', b'/abs/x', b'a/b', b'a\\b', b'', b'..\\x', b'../../y', b'...']
+NAMES = [b'a', b'..', b'.', b'../x', b'/abs/x', b'a/b', b'a\\b', b'', b'..\\x', b'../../y', b'...', b'a/..', b'a/.', b'a/', b'x/../..']
 
 
 def wdir():
